@@ -295,6 +295,28 @@ def run(tier):
             s["id"] = f"suspect:{cfg}:{k}"
             s["origin"] = {"kind": "suspect", "cfg": cfg, "violates": viol, "hist": hist}
             scripts.append(s)
+    # small scope, exhaustively: EVERY sequence of at most three actions of Nav.tla's alphabet on one expression, then a new
+    # expression, then one probe - "a new expression forgets everything tied to the old one" whatever state the old one was left in
+    # (a marker set and the stack popped empty, a stale node, an undone move ...)
+    import itertools
+    alphabet = [{"name": "Move", "arg": ""}, {"name": "Zoom", "arg": ""}, {"name": "MoveLastLocation", "arg": ""}, {"name": "SetPlacemarker", "arg": 0},
+                {"name": "MoveTo", "arg": 0}, {"name": "Read", "arg": ""}, {"name": "SetNavNode", "arg": "a1"}]
+    probes = [{"name": "MoveTo", "arg": 0}, {"name": "MoveLastLocation", "arg": ""}, {"name": "Move", "arg": ""}, {"name": "Read", "arg": ""}]
+    prefixes = [list(p_) for n in range(0, 4) for p_ in itertools.product(alphabet, repeat=n)]
+    if tier == "quick":
+        short = [p_ for p_ in prefixes if len(p_) <= 2]
+        prefixes = short + random.Random(C.seed() * 53).sample([p_ for p_ in prefixes if len(p_) == 3], 120)
+    n_scope = 0
+    for pi, pre in enumerate(prefixes):
+        for qi, probe in enumerate(probes):
+            if tier == "quick" and len(pre) == 3 and qi != pi % len(probes):
+                continue
+            hist = [{"name": "SetMathML", "arg": "e1"}] + pre + [{"name": "SetMathML", "arg": "e2"}, probe, {"name": "Read", "arg": ""}]
+            s = concretise(hist, random.Random(C.seed() * 7001 + pi * 4 + qi), small, commands)
+            s["id"] = f"scope:{pi}:{qi}"
+            s["origin"] = {"kind": "small-scope", "hist": hist}
+            scripts.append(s)
+            n_scope += 1
     for bi, b in enumerate(behaviours):
         s = concretise(b, rng, small, commands)
         s["id"] = f"model:{bi}"
@@ -359,7 +381,7 @@ def run(tier):
         "exhaustive": False, "model_actions_coverage": {k: v[1] for k, v in m1["coverage"].items()},
         "suspect_histories": [{"cfg": c, "violates": v, "len": len(h)} for c, v, h in suspects],
         "events_by_class": kinds, "trace_events_rejected": len(rejects), "model_drift": len(drifts),
-        "model_behaviours_replayed": len(behaviours), "random_walks": nwalks, "undo_sweeps": nsweeps,
+        "model_behaviours_replayed": len(behaviours), "small_scope_histories": n_scope, "random_walks": nwalks, "undo_sweeps": nsweeps,
     }, time.time() - t0, len(verdict.violations),
         ["where a Move/Zoom command lands is decided by navigate.yaml and is not specified; only 'within the expression'",
          "ids in the returned MathML identify nodes"])
